@@ -122,9 +122,24 @@ def check_layout(res, L, rng, tag, reps, ob, model):
                 if not rel_ok(lhs.value, rhs.value, mag(A1.exp()) * mag(B1.exp())):
                     res.violate('exp(A+B) != exp(A)exp(B) for blades in orthogonal planes', dict(site, A=A1.value.tolist(), B=B1.value.tolist()), lhs.value.tolist(),
                                 rhs.value.tolist(), dict(site, op='exp-commuting-planes'))
-    # general multivectors of moderate size
-    for _ in range(reps):
-        M = MultiVector(L, rng.uniform(-1.5, 1.5, size=N) * (rng.random(N) < 0.7))
+    # general multivectors of moderate size, plus multivectors whose square has a ZERO scalar part without being zero
+    # (e.g. e1 + e23 in Cl(3): the square is 2 e123), which are not null and whose series does not stop after the linear term
+    specials = []
+    if 3 <= n <= 4:
+        for _try in range(400):
+            v = np.zeros(N)
+            idx = rng.choice(N, size=int(rng.integers(2, 4)), replace=False)
+            v[idx] = rng.choice([-1.0, 1.0, 0.5, -0.5], size=len(idx))
+            X = MultiVector(L, v)
+            X2 = X * X
+            if X2.value[int(L._basis_blade_order.bitmap_to_index[0])] == 0 and X2.value.any():
+                specials.append(X)
+                if len(specials) >= 2:
+                    break
+    Ms = [MultiVector(L, rng.uniform(-1.5, 1.5, size=N) * (rng.random(N) < 0.7)) for _ in range(reps)] + specials
+    for M in Ms:
+        if any(M is sp for sp in specials):
+            res.count('zero_scalar_square')
         res.case(('identities', tag, M.value.tolist()), nontrivial=True)
         c, s_, ch, sh, ex = M.cos(), M.sin(), M.cosh(), M.sinh(), M.exp()
         inp = dict(site, M=M.value.tolist())
@@ -135,7 +150,8 @@ def check_layout(res, L, rng, tag, reps, ob, model):
         checks = [('cos^2+sin^2=1', c * c + s_ * s_, one, mag(c * c, s_ * s_)), ('cosh^2-sinh^2=1', ch * ch - sh * sh, one, mag(ch * ch, sh * sh)),
                   ('exp=cosh+sinh', ex, ch + sh, mag(ch, sh)), ('tan*cos=sin', M.tan() * c, s_, mag(M.tan()) * mag(c)),
                   ('tanh*cosh=sinh', M.tanh() * ch, sh, mag(M.tanh()) * mag(ch)),
-                  ('te.sin', te.sin(M), s_, mag(s_)), ('te.cosh', te.cosh(M), ch, mag(ch))]
+                  ('te.sin', te.sin(M), s_, mag(s_)), ('te.cosh', te.cosh(M), ch, mag(ch)),
+                  ('exp(-M)exp(M)=1', (-M).exp() * ex, one, mag((-M).exp()) * mag(ex))]
         for nm, got, exp, scale in checks:
             if not rel_ok(got.value, exp.value, max(scale, terms)):
                 res.violate(f'series identity fails: {nm}', inp, got.value.tolist(), exp.value.tolist(), dict(site, op='identity:' + nm))
@@ -181,6 +197,26 @@ def run_job(job, tier, seed):
         for i, s in enumerate([[1, 1, -1], [1, 1, 1, 1]]):
             L = real.make_layout(s)
             common.gcall(res, check_layout, L, rng, f"J{i}", 2, ob, i == 0)
+        # a second layout with the same signature and ids as J0 but another blade order, used after it in this process: the jitted series
+        # must run on ITS tables (numba interns its types by name)
+        L = real.make_layout([1, 1, -1], order=[0, 4, 2, 1, 3, 6, 5, 7])
+        common.gcall(res, check_layout, L, rng, "J0perm", 2, ob, True)
+        L2 = real.make_layout([1, 1, -1], ids=['x', 'y', 't'])
+        common.gcall(res, check_layout, L2, rng, "J0ids", 1, ob, False)
+        # and directly: the compiled series against the same Python body run by the interpreter, on both twins
+        from clifford import taylor_expansions as te, MultiVector
+        for nm_, Lt in (('J0perm', L), ('J0ids', L2), ('J0perm', L)):
+            for fn in (te.sin, te.cos, te.sinh, te.cosh):
+                if not hasattr(fn, 'py_func'):
+                    continue
+                M = MultiVector(Lt, rng.uniform(-1.0, 1.0, size=Lt.gaDims))
+                res.case(('twin-series', nm_, fn.__name__, M.value.tolist()), nontrivial=True)
+                res.count('twin_series')
+                a_, b_ = fn(M), fn.py_func(M)
+                if not (rel_ok(a_.value, b_.value, mag(b_), 1e-12) and repr(a_.layout) == repr(Lt)):
+                    res.violate('a jitted series function differs from its interpreted body on a layout that shares signature and ids with an earlier one',
+                                dict(layout=nm_, function=fn.__name__, M=M.value.tolist()), a_.value.tolist(), b_.value.tolist(),
+                                dict(common.site_of(Lt), op='twin-series:' + fn.__name__))
     else:
         raise ValueError(job)
     if ob.lines:
